@@ -13,7 +13,7 @@ A5 = 'A5 opaque handles: Weak<RefCell<ContextInfo>> is an opaque value with a fi
 A6 = 'A6 machine arithmetic: Verus keeps usize width symbolic (32/64); Kani is x86-64; f64 is bit-precise in CBMC; Verus never reasons about floats'
 A7 = 'A7 inert node: func.rs functions ignore their XmlNode argument when given all arguments; harnesses pass a zeroed, never-read node'
 A9 = 'A9 expression model: xpath::expr::model values are opaque handles; the accessor stubs promise only that Or/And expressions have at least one operand (the parser builds them with separated_list1); Number lexemes parse as f64'
-A10 = 'A10 DOM handles: dom::XmlNode is an opaque value with an uninterpreted order key; owner_document() is Some for every non-Document node; nothing is assumed about parent_node(), the axes, as_expanded_name(), the function library except that it leaves the context stacks alone and returns no unordered node-set'
+A10 = 'A10 DOM handles: dom::XmlNode is an opaque value with an uninterpreted order key; nothing is assumed about parent_node(), owner_document(), the axes, as_expanded_name(), the function library except that it leaves the context stacks alone and returns no unordered node-set'
 A11 = 'A11 termination of the mutually recursive eval_* functions is not verified (exec_allows_no_decreases_clause): structural recursion over an opaque expression tree; every loop ranges over a finite vector'
 A8 = 'A8 toolchains: Verus compiles the extracted text with Rust 1.98.1, Kani with its pinned nightly, the repo tests with 1.95; std behaviour assumed identical'
 
